@@ -158,7 +158,7 @@ func exec1(line string) string {
 // length (so the ONLY non-canonical feature is the trailing data).
 func (P) ClassifyMismatch(line, goOut, leanOut string) string {
 	f := strings.Fields(line)
-	if len(f) != 3 || f[1] != "der" || !strings.HasPrefix(goOut, "ok ") || leanOut != "err" {
+	if len(f) != 3 || (f[1] != "der" && f[1] != "lows") || !strings.HasPrefix(goOut, "ok") || leanOut != "err" {
 		return ""
 	}
 	b := unhex(f[2])
@@ -166,11 +166,17 @@ func (P) ClassifyMismatch(line, goOut, leanOut string) string {
 		return ""
 	}
 	cut := b[:int(b[1])+2]
-	if showECDSA(ecdsa.ParseDERSignature(cut)) != goOut {
+	sig, err := ecdsa.ParseDERSignature(cut)
+	if err != nil {
+		return ""
+	}
+	if f[1] == "der" && showECDSA(sig, nil) != goOut {
+		return ""
+	}
+	if f[1] == "lows" && ecdsa.VerifyLowS(cut) != nil { // VerifyLowS = the same strict parser + low-S
 		return ""
 	}
 	// the cut input must itself be canonical: re-serialising (without low-S normalisation) gives it back
-	sig, _ := ecdsa.ParseDERSignature(cut)
 	if rr, ss := sig.R(), sig.S(); rr.IsZero() || ss.IsZero() {
 		return ""
 	}
